@@ -890,3 +890,160 @@ Proof.
     + apply (add_carrier_refines c o d od W Wo Rc Ro r H).
     + apply (sub_carrier_refines c o d od W Wo Rc Ro r H).
 Qed.
+
+(* ------------------------------------------------------------------ add_dyad / constructor against the dense loop *)
+Lemma wf_snoc c u v : wf c -> zlen (vd u) = ulen c -> zlen (vd v) = vlen c ->
+  wf (mkcar (us c ++ [u]) (vs c ++ [v]) (ulen c) (vlen c) (cplx c || vf u || vf v)).
+Proof.
+  intros W Lu Lv. constructor; cbn [us vs ulen vlen cplx].
+  - rewrite !app_length. cbn. rewrite (wf_len _ W). reflexivity.
+  - apply Forall_app. split; [apply (wf_u _ W)|]. constructor; [exact Lu | constructor].
+  - apply Forall_app. split; [apply (wf_v _ W)|]. constructor; [exact Lv | constructor].
+  - intros w [Hin|Hin] Hf; apply in_app_or in Hin as [Hin|Hin].
+    + rewrite (wf_f _ W w (or_introl Hin) Hf). reflexivity.
+    + destruct Hin as [<-|[]]. rewrite Hf. rewrite orb_true_r. reflexivity.
+    + rewrite (wf_f _ W w (or_intror Hin) Hf). reflexivity.
+    + destruct Hin as [<-|[]]. rewrite Hf. apply orb_true_r.
+Qed.
+
+Lemma wf_setdims c a b l : wf c ->
+  wf (mkcar (us c) (vs c) (eff_u c ((a, b) :: l)) (eff_v c ((a, b) :: l)) (cplx c)).
+Proof.
+  intros W. constructor; cbn [us vs ulen vlen cplx].
+  - apply (wf_len _ W).
+  - unfold eff_u. destruct (ulen c <? 0) eqn:E; [|apply (wf_u _ W)].
+    apply Z.ltb_lt in E. destruct (wf_unknown_nodyads c W (or_introl E)) as [-> _]. constructor.
+  - unfold eff_v. destruct (vlen c <? 0) eqn:E; [|apply (wf_v _ W)].
+    apply Z.ltb_lt in E. destruct (wf_unknown_nodyads c W (or_intror E)) as [_ ->]. constructor.
+  - apply (wf_f _ W).
+Qed.
+
+Lemma add_loop_sim l fac : forall c d d', wf c -> R c d -> dadd_loop d l fac = Some d' ->
+  exists c', add_loop c l fac = (c', None) /\ wf c' /\ R c' d'.
+Proof.
+  induction l as [|[a b] l IH]; intros c d d' W Rc H.
+  - cbn in H. injection H as <-. exists c. cbn. auto.
+  - rewrite add_loop_cons. cbn zeta. rewrite (setdims_eq c a b l).
+    cbn [dadd_loop] in H. cbn zeta in H.
+    destruct Rc as [Eu [Ev [Ed Fl]]].
+    set (r := eff_u c ((a, b) :: l)) in *. set (cn := eff_v c ((a, b) :: l)) in *.
+    assert (Er : (if dr d <? 0 then zlen (vd (in_vec a)) else dr d) = r) by (unfold r, eff_u; cbn [fst]; rewrite Eu; reflexivity).
+    assert (Ec : (if dc d <? 0 then zlen (vd (in_vec b)) else dc d) = cn) by (unfold cn, eff_v; cbn [snd]; rewrite Ev; reflexivity).
+    rewrite Er, Ec in H.
+    set (c2 := mkcar (us c) (vs c) r cn (cplx c)) in *.
+    assert (W2 : wf c2) by (apply wf_setdims; exact W).
+    destruct ((zlen (vd (in_vec a)) =? r) && (zlen (vd (in_vec b)) =? cn)) eqn:Echk; [|discriminate].
+    apply andb_true_iff in Echk as [E1 E2]. cbn [ulen vlen c2]. rewrite E1, E2. cbn [negb].
+    apply Z.eqb_eq in E1, E2.
+    set (base := if (dr d <? 0) || (dc d <? 0) then mzeros (Z.to_nat r) (Z.to_nat cn) else dmat d) in *.
+    assert (Eb : todense c2 = base).
+    { unfold base. destruct ((dr d <? 0) || (dc d <? 0)) eqn:En.
+      - assert (N : ulen c < 0 \/ vlen c < 0).
+        { apply orb_true_iff in En as [N|N]; apply Z.ltb_lt in N; [left | right]; congruence. }
+        destruct (wf_unknown_nodyads c W N) as [Eus Evs]. unfold todense, c2. cbn [us vs ulen vlen]. rewrite Eus. reflexivity.
+      - apply orb_false_iff in En as [N1 N2].
+        assert (r = ulen c) as -> by (unfold r, eff_u; rewrite Eu, N1; reflexivity).
+        assert (cn = vlen c) as -> by (unfold cn, eff_v; rewrite Ev, N2; reflexivity).
+        rewrite <- Ed. reflexivity. }
+    assert (Tb : base = mtab (Z.to_nat r) (Z.to_nat cn) (psum (us c) (vs c))).
+    { rewrite <- Eb. apply (todense_tab c2 W2). }
+    assert (To : outer (vd (vscaleZ fac (in_vec a))) (vd (in_vec b)) =
+                 mtab (Z.to_nat r) (Z.to_nat cn) (fun i j => ent i j (vscaleZ fac (in_vec a)) (in_vec b))).
+    { rewrite outer_tab. rewrite length_vscaleZ. rewrite (zlen_nat _ _ E1), (zlen_nat _ _ E2). reflexivity. }
+    destruct (vis0 (vd (in_vec a)) || vis0 (vd (in_vec b))) eqn:Ez.
+    + refine (IH c2 _ d' W2 _ H). unfold R. cbn [ulen vlen cplx c2 dr dc dmat dflag]. splits; auto.
+      * rewrite Eb, To, Tb, madd_tab. apply mtab_ext. intros i j _ _. unfold ent. rewrite vget_vscaleZ.
+        apply orb_true_iff in Ez as [Ez|Ez]; rewrite (vis0_get _ _ Ez); ring.
+      * intros Hc. rewrite (Fl Hc). reflexivity.
+    + assert (Lu : zlen (vd (vscaleZ fac (in_vec a))) = ulen c2) by (unfold zlen; rewrite length_vscaleZ; exact E1).
+      pose proof (wf_snoc c2 (vscaleZ fac (in_vec a)) (in_vec b) W2 Lu E2) as W3.
+      cbn [us vs ulen vlen cplx c2] in W3. rewrite vf_vscaleZ in W3.
+      refine (IH _ _ d' W3 _ H). apply (R_intro _ _ (fun i j => (psum (us c) (vs c) i j + ent i j (vscaleZ fac (in_vec a)) (in_vec b))%C));
+        cbn [us vs ulen vlen cplx dr dc dmat dflag]; auto.
+      * unfold nrow, ncol. cbn [dr dc]. rewrite To, Tb, madd_tab. reflexivity.
+      * intros i j _ _. apply psum_snoc. apply (wf_len _ W).
+      * intros Hc. apply orb_true_iff in Hc as [Hc|Hc]; [|rewrite Hc; apply orb_true_r].
+        apply orb_true_iff in Hc as [Hc|Hc]; [rewrite (Fl Hc); reflexivity | rewrite Hc, orb_true_r; reflexivity].
+Qed.
+
+Lemma add_dyad_refines c d u v fac d' : wf c -> R c d -> dadd_dyad d u v fac = Some d' ->
+  exists c', add_dyad c u v fac = (c', None) /\ wf c' /\ R c' d'.
+Proof.
+  intros W Rc. unfold dadd_dyad, add_dyad.
+  destruct (Nat.eqb (length (parse_to_list u)) (length match v with UNone => parse_to_list u | _ => parse_to_list v end));
+    [|discriminate].
+  cbn [negb]. apply add_loop_sim; assumption.
+Qed.
+
+Lemma R_dzero r cn : R (empty r cn) (dzero r cn).
+Proof. unfold R, empty, dzero, todense. cbn. splits; auto. Qed.
+
+Lemma new_refines u v r cn d' : dadd_dyad (dzero r cn) u v None = Some d' ->
+  exists c', new u v r cn = Ok c' /\ wf c' /\ R c' d'.
+Proof.
+  intros H. destruct (add_dyad_refines (empty r cn) (dzero r cn) u v None d' (wf_empty r cn) (R_dzero r cn) H) as [c' [E [W Rc]]].
+  exists c'. unfold new. rewrite E. cbn. auto.
+Qed.
+
+(* ------------------------------------------------------------------ entries of the dense image, also outside the matrix *)
+Lemma mget_mtab_over r c f i j : ~ ((i < r)%nat /\ (j < c)%nat) -> mget (mtab r c f) i j = c0.
+Proof.
+  intros H. unfold mget. destruct (Nat.lt_ge_cases i r) as [Hi|Hi].
+  - rewrite nth_mtab by exact Hi. apply vget_over. rewrite length_vtab. lia.
+  - rewrite nth_overflow by (rewrite length_mtab; lia). apply vget_over. cbn. lia.
+Qed.
+
+Lemma psum_over c i j : wf c -> ~ ((i < Z.to_nat (ulen c))%nat /\ (j < Z.to_nat (vlen c))%nat) ->
+  psum (us c) (vs c) i j = c0.
+Proof.
+  intros W H. unfold psum. rewrite (psumf_ext _ (fun _ _ => c0)).
+  - unfold psumf. apply csum_map_0.
+  - intros u v Hu Hv. unfold ent.
+    pose proof (in_vlens _ _ _ (wf_u _ W) Hu) as Lu. pose proof (in_vlens _ _ _ (wf_v _ W) Hv) as Lv.
+    destruct (Nat.lt_ge_cases i (Z.to_nat (ulen c))) as [Hi|Hi].
+    + rewrite (vget_over (vd v) j) by lia. ring.
+    + rewrite (vget_over (vd u) i) by lia. ring.
+Qed.
+
+Lemma mget_dense c i j : wf c ->
+  mget (mtab (Z.to_nat (ulen c)) (Z.to_nat (vlen c)) (psum (us c) (vs c))) i j = psum (us c) (vs c) i j.
+Proof.
+  intros W. destruct (Nat.lt_ge_cases i (Z.to_nat (ulen c))) as [Hi|Hi]; destruct (Nat.lt_ge_cases j (Z.to_nat (vlen c))) as [Hj|Hj].
+  - apply mget_mtab; assumption.
+  - rewrite mget_mtab_over by lia. rewrite psum_over by (auto; lia). reflexivity.
+  - rewrite mget_mtab_over by lia. rewrite psum_over by (auto; lia). reflexivity.
+  - rewrite mget_mtab_over by lia. rewrite psum_over by (auto; lia). reflexivity.
+Qed.
+
+Lemma R_mget c d i j : wf c -> R c d -> mget (dmat d) i j = psum (us c) (vs c) i j.
+Proof. intros W [Eu [Ev [Ed _]]]. rewrite <- Ed, todense_tab by exact W. apply mget_dense. exact W. Qed.
+
+Lemma fold_left_map_fn {A B S} (op : S -> B -> S) (F : A -> B) l a :
+  fold_left (fun acc p => op acc (F p)) l a = fold_left op (map F l) a.
+Proof. revert a. induction l as [|x l IH]; intros a; cbn; [reflexivity | apply IH]. Qed.
+
+(* ------------------------------------------------------------------ diagonal(k) *)
+Lemma diag_refines c d k : wf c -> R c d -> out_le (diagonal c k) (ddiag d k).
+Proof.
+  intros W Rc. pose proof Rc as [Eu [Ev [_ Fl]]]. unfold diagonal, ddiag. rewrite <- Eu, <- Ev.
+  set (ustart := Z.max 0 (- k)). set (vstart := Z.max 0 k).
+  destruct ((ulen c =? 0) || (vlen c =? 0)) eqn:E0.
+  - cbn. split; [|exact Fl].
+    assert (Hn : Z.to_nat (Z.min (Z.max 0 (ulen c) - ustart) (Z.max 0 (vlen c) - vstart)) = 0%nat).
+    { apply orb_true_iff in E0 as [E|E]; apply Z.eqb_eq in E; lia. }
+    rewrite Hn. reflexivity.
+  - apply orb_false_iff in E0 as [E1 E2]. apply Z.eqb_neq in E1, E2.
+    destruct (Z.min (ulen c - ustart) (vlen c - vstart) <? 0) eqn:En.
+    + apply Z.ltb_lt in En. cbn. split; [|exact Fl].
+      assert (Hn : Z.to_nat (Z.min (Z.max 0 (ulen c) - ustart) (Z.max 0 (vlen c) - vstart)) = 0%nat) by lia.
+      rewrite Hn. reflexivity.
+    + apply Z.ltb_ge in En. cbn. split; [|exact Fl].
+      assert (Hn : Z.min (Z.max 0 (ulen c) - ustart) (Z.max 0 (vlen c) - vstart) = Z.min (ulen c - ustart) (vlen c - vstart)) by lia.
+      rewrite Hn. set (n := Z.min (ulen c - ustart) (vlen c - vstart)) in *.
+      rewrite (fold_left_map_fn vadd (fun p => vmul (vslice (vd (fst p)) ustart n) (vslice (vd (snd p)) vstart n))).
+      rewrite vzeros_tab. rewrite fold_vadd_tab.
+      2:{ apply Forall_map. apply Forall_forall. intros p _. unfold vmul, vslice. rewrite length_vmap2, !length_vtab. lia. }
+      apply vtab_ext. intros t Ht. rewrite (R_mget c d _ _ W Rc). rewrite map_map. rewrite cadd_0_l.
+      unfold psum, psumf. apply csum_map_ext. intros [u v] _. cbn [fst snd]. unfold vmul, vslice.
+      rewrite vget_vmap2 by (rewrite length_vtab; exact Ht). rewrite !vget_vtab by exact Ht. reflexivity.
+Qed.
